@@ -31,7 +31,7 @@ KF = "KF-tools-ubi-eps-2pi"
 def cells(tier):
     cs = alph.cells("quick")
     n = 10 if tier == "quick" else 40
-    return cs[::max(1, len(cs) // n)][:n] + [[5.1, 6.2, 7.3, 90.0, 90.0004, 90.0], [4.0, 4.0, 9.0, 89.9996, 90.00001, 120.0]]
+    return cs[::max(1, len(cs) // n)][:n] + [[5.1, 6.2, 7.3, 90.0, 90.0004, 90.0], [4.0, 4.0, 9.0, 89.9996, 90.00001, 120.0]] + [list(c) for c in alph.SPECIAL_CELLS]
 
 
 def rots(tier):
@@ -73,6 +73,14 @@ def gen(fn, tier):
         for c in C:
             for h in HKLS:
                 yield ((c, h), (c, h) + ((0.1,) if fn == "tth" else ()), (c, h) + ((0.1,) if fn == "tth" else ()), one)
+        # one cell list / array object reused by the caller with new contents (same object for consecutive calls)
+        for kind in ("list", "ndarray"):
+            buf_t = [0.0] * 6 if kind == "list" else np.zeros(6)
+            buf_l = [0.0] * 6 if kind == "list" else np.zeros(6)
+            for c in C[:6]:
+                buf_t[:] = c
+                buf_l[:] = c
+                yield ((c, "reused " + kind), (buf_t, (1, 2, -3)) + ((0.1,) if fn == "tth" else ()), (buf_l, (1, 2, -3)) + ((0.1,) if fn == "tth" else ()), ("oracle-stl", list(c), fn))
     elif fn == "tth2":
         for c in C:
             B = O.b_ref(c)
@@ -272,6 +280,11 @@ def dev(a, b, scale):
         return float("inf")
     if a.size == 0:
         return 0.0
+    both_nan = np.isnan(a) & np.isnan(b)  # e.g. tth of a reflection that cannot diffract at this wavelength: nan in both modules
+    if both_nan.all():
+        return 0.0
+    a = np.where(both_nan, 0.0, a)
+    b = np.where(both_nan, 0.0, b)
     return float(np.max(np.abs(a - b))) / max(float(np.max(np.abs(a))), float(np.max(np.abs(b))), 1e-3)
 
 
@@ -295,6 +308,18 @@ def check_case(case):
         if i % case["nparts"] != case["part"]:
             continue
         k = "%s:%s" % (fn, key if not isinstance(key, np.ndarray) else key.tolist())
+        if isinstance(scale, tuple) and scale and scale[0] == "oracle-stl":
+            # reused-buffer items: both modules must agree with each other AND with the harness metric for the buffer's current contents
+            st, vt = call(ft, ta)
+            sl, vl = call(fl, la)
+            r.evals += 1
+            sref = O.stl(O.recip_metric(scale[1]), (1, 2, -3))
+            want = sref if scale[2] == "sintl" else 2 * math.asin(0.1 * sref)
+            okk = st == "ok" and sl == "ok" and abs(float(vt) - want) <= 1e-9 * want / O.gram_det(scale[1]) and abs(float(vl) - want) <= 1e-9 * want / O.gram_det(scale[1])
+            if not okk:
+                r.violation(k, "%s answers for the CURRENT contents of a cell object the caller reuses (both modules)" % fn, want, [repr(vt), repr(vl)])
+            r.nontrivial.add(k[:120])
+            continue
         if isinstance(scale, tuple) and scale and scale[0] == "box":
             box = ta[0]
             rest = ta[1:]
